@@ -249,6 +249,7 @@ def real_worker(case):
         try:
             content2 = with_decl(apply_edit(case["content"], case["then"]))
             edit_model(m, case["then"])
+            m.get_initial_conditions()  # same gate as at build time (e.g. division by zero at the initial state)
             out["then"] = observe(m, content2, pts)
         except Exception as e:  # noqa: BLE001
             out["then"] = {"build": _exc(e)}
@@ -765,6 +766,10 @@ def judge_case(ctx, case, R, M, content=None, step=""):
     # 2. the simulator: a Jacobian exactly when the conversion works, a warning otherwise
     present = R.get("jacfn_present")
     if not isinstance(present, bool):
+        if isinstance(present, dict) and present.get("err", [None])[0] == "ZeroDivisionError":
+            # the simulator's test run divides by zero at the initial state: outside the model (as at build time)
+            ctx.hist["skipped_simulator_ZeroDivisionError"] = ctx.hist.get("skipped_simulator_ZeroDivisionError", 0) + 1
+            return
         ctx.violation(sub, present, "Simulator(use_jacobian=True) raised")
         return
     ctx.judge(sub, present, S_status == "ok", None if M is None else M["has_jac"],
